@@ -28,6 +28,19 @@ def gamma_big(c, k, mu, sigma_squared, team, rank):
     return 50.0
 
 
+# the callback "must return a float or int": the same three, returning ints (every other model the session constructs)
+def gamma_one_int(c, k, mu, sigma_squared, team, rank):
+    return 1
+
+
+def gamma_zero_int(c, k, mu, sigma_squared, team, rank):
+    return 0
+
+
+def gamma_big_int(c, k, mu, sigma_squared, team, rank):
+    return 50
+
+
 def make_gamma_probe(beta):
     def gamma_probe(c, k, mu, sigma_squared, team, rank):
         return (
@@ -64,7 +77,8 @@ class Session:
         for k, cls in self.classes.items():
             mod = sys.modules[cls.__module__]
             self.gamma_names[id(mod._gamma)] = "default"
-        for f, n in [(gamma_one, "one"), (gamma_zero, "zero"), (gamma_big, "big")]:
+        for f, n in [(gamma_one, "one"), (gamma_zero, "zero"), (gamma_big, "big"),
+                     (gamma_one_int, "one"), (gamma_zero_int, "zero"), (gamma_big_int, "big")]:
             self.gamma_names[id(f)] = n
         self._keep = []
 
@@ -98,7 +112,9 @@ class Session:
                 self.gamma_names[id(g)] = "probe"
                 self._keep.append(g)
             else:
-                g = {"one": gamma_one, "zero": gamma_zero, "big": gamma_big}[gamma]
+                ints = self.next_mid % 2 == 1
+                g = {"one": gamma_one_int if ints else gamma_one, "zero": gamma_zero_int if ints else gamma_zero,
+                     "big": gamma_big_int if ints else gamma_big}[gamma]
             kw["gamma"] = g
         obj = cls(**kw)
         self.next_mid += 1
@@ -140,7 +156,9 @@ class Session:
             self.gamma_names[id(g)] = "probe"
             self._keep.append(g)
             return g
-        return {"one": gamma_one, "zero": gamma_zero, "big": gamma_big}[name]
+        ints = mh.id % 2 == 1
+        return {"one": gamma_one_int if ints else gamma_one, "zero": gamma_zero_int if ints else gamma_zero,
+                "big": gamma_big_int if ints else gamma_big}[name]
 
     @staticmethod
     def outcome_of(fn):
